@@ -504,6 +504,16 @@ func directedJpCases() (paths [][]Frag, datas []any) {
 		}
 		paths = append(paths, []Frag{R, f3}, []Frag{R, f3, ck("v")})
 		datas = append(datas, arr, arr)
+		// count() / length() of a path anchored at the document root
+		for _, fn := range []string{"count", "length"} {
+			un := func(p ...Frag) *Eqn { return &Eqn{Kind: "un", Op: fn, A: pe(p...)} }
+			k := &Eqn{Kind: "v", Const: int64(1)}
+			g1 := Frag{Kind: "f", Eq: &Eqn{Kind: "bin", Op: op, A: un(R, ck("items"), Frag{Kind: "W"}), B: k}}
+			g2 := Frag{Kind: "f", Eq: &Eqn{Kind: "bin", Op: op, A: un(R, ck("limit")), B: k}}
+			g3 := Frag{Kind: "f", Eq: &Eqn{Kind: "bin", Op: op, A: un(R, Frag{Kind: "W"}), B: &Eqn{Kind: "v", Const: int64(4)}}}
+			paths = append(paths, []Frag{R, ck("items"), g1}, []Frag{R, ck("items"), g2}, []Frag{R, g2}, []Frag{R, g3}, []Frag{R, nn(-1), g3})
+			datas = append(datas, doc, doc, doc, arr, arr)
+		}
 	}
 	return
 }
